@@ -57,6 +57,26 @@ where
     r
 }
 
+/// number of m x n matrices over an alphabet of k letters
+pub fn matrix_count(m: usize, n: usize, k: usize) -> usize {
+    k.pow((m * n) as u32)
+}
+
+/// the idx-th m x n matrix over the alphabet (same order as `all_matrices`)
+pub fn matrix_at<T: RefRing>(m: usize, n: usize, alphabet: &[T], idx: usize) -> (RMat<T>, String) {
+    let k = alphabet.len();
+    let mut codes = String::with_capacity(m * n);
+    let mut e = Vec::with_capacity(m * n);
+    let mut x = idx;
+    for _ in 0..m * n {
+        let c = x % k;
+        codes.push(char::from_digit(c as u32, 36).unwrap());
+        e.push(alphabet[c].clone());
+        x /= k;
+    }
+    (RMat { m, n, e }, codes)
+}
+
 /// all m x n matrices over the alphabet (index 0 first), as (matrix, code string)
 pub fn all_matrices<T: RefRing>(m: usize, n: usize, alphabet: &[T]) -> impl Iterator<Item = (RMat<T>, String)> + '_ {
     let k = alphabet.len();
